@@ -200,6 +200,14 @@ Theorem C05_end_after_maps : forall (E M I C F B : Type) (mapmol : M -> I -> res
 Proof. exact (@end_after_maps_thm). Qed.
 Print Assumptions C05_end_after_maps.
 
+(* detaching an end molecule (`molecule_correspondence[name].end = None`): nothing is written for that species from
+   then on, whatever map object it still holds - the selection depends on the CURRENT attachments only *)
+Theorem C05_end_removed : forall (E M I C : Type) (mapmol : M -> I -> res (mapped C))
+    (sps : list (spstate E M)) (i : nat) sps' (m : minst I),
+  remove_end sps i = Ok sps' -> in_species m = i -> sel sps' m = false /\ mol_atoms mapmol sps' m = None.
+Proof. exact (@end_removed_thm). Qed.
+Print Assumptions C05_end_removed.
+
 (* ---------------------------------------------------------------- non-vacuity *)
 (* three species (both resolutions + map / loaded only / both + map), file order A B C A, residue numbers
    (7,8) (9) (99999) (0,1): the hypotheses of C05_trace, C05_count, C05_order_resids and C05_file hold *)
